@@ -10,6 +10,7 @@ import (
 	"github.com/nyaruka/goflow/flows/definition"
 	"github.com/nyaruka/goflow/flows/events"
 	"github.com/nyaruka/goflow/flows/routers"
+	"github.com/nyaruka/goflow/flows/routers/waits"
 	"github.com/nyaruka/goflow/flows/triggers"
 	"github.com/nyaruka/goflow/zzverif"
 )
@@ -373,4 +374,49 @@ func VerifC18_LanguageChanges() {
 	zzverif.Assert(msgs[1].Text() == want2[0] && string(msgs[1].Locale()) == string(lang2), "the message sent after the language change was not chosen by the fallback for the new language")
 	res := sess.Runs()[0].Results().Get("color")
 	zzverif.Assert(res != nil && res.CategoryLocalized == wantName[0], "the category localized after the language change was not chosen by the fallback for the new language")
+}
+
+// VerifC18_CategoryAfterLanguageChange: the language in force when a text is
+// chosen is the contact's at that moment, also for the localized category
+// name saved with a result: a router that saves the result Color is passed
+// twice with the same answer (same value, same category), the contact's
+// language being changed to one with a translation of the category in
+// between (or not): after the second pass the saved result carries the
+// category name in the language then in force.
+// cover: language-changed, language-kept
+func VerifC18_CategoryAfterLanguageChange() {
+	loc := definition.NewLocalization()
+	loc.SetItemTranslation("spa", "cr", "name", []string{"Rojo"})
+	cats := []flows.Category{routers.NewCategory("cr", "Red", "e0")}
+	router := routers.NewSwitch(waits.NewMsgWait(nil, nil), "Color", cats, "@input.text", nil, "cr")
+	n0 := definition.NewNode("f0n0", nil, router, []flows.Exit{definition.NewExit("e0", "f0n1")})
+	var acts []flows.Action
+	changed := zzverif.Choice("language-changed-between", 2) == 1
+	if changed {
+		acts = append(acts, actions.NewSetContactLanguage("a1", "spa"))
+		zzverif.Cover("language-changed")
+	} else {
+		zzverif.Cover("language-kept")
+	}
+	n1 := definition.NewNode("f0n1", acts, nil, []flows.Exit{definition.NewExit("e1", "f0n0")})
+	f, err := definition.NewFlow(verifFlowUUID(0), "F0", "eng", flows.FlowTypeMessaging, 1, 10, loc, []flows.Node{n0, n1}, nil, nil)
+	zzverif.Assert(err == nil, "flow did not validate")
+	sa := verifNewAssets()
+	sa.add(f)
+	env := envs.NewBuilder().WithAllowedLanguages("eng", "spa").Build()
+	contact := flows.NewEmptyContact(sa, "Bob", "eng", nil)
+	sess, _, err := verifEngine(10, 10).NewSession(sa, triggers.NewBuilder(env, assets.NewFlowReference(verifFlowUUID(0), "F0"), contact).Manual().Build())
+	zzverif.Assert(err == nil && sess.Status() == flows.SessionStatusWaiting, "setup: session not waiting")
+	_, err = sess.Resume(verifResumeText("red"))
+	zzverif.Assert(err == nil && sess.Status() == flows.SessionStatusWaiting, "setup: session not waiting at the second pass")
+	first := sess.Runs()[0].Results().Get("color")
+	zzverif.Assert(first != nil && first.Category == "Red" && first.CategoryLocalized == "", "the first pass did not save the category in the base language")
+	_, err = sess.Resume(verifResumeText("red"))
+	zzverif.Assert(err == nil, "second resume failed")
+	second := sess.Runs()[0].Results().Get("color")
+	want := ""
+	if changed {
+		want = "Rojo"
+	}
+	zzverif.Assert(second != nil && second.Category == "Red" && second.CategoryLocalized == want, "the localized category of a result saved again is not in the language in force when it was saved")
 }
